@@ -92,6 +92,7 @@ type interpreter struct {
 	goroutines         int32                  // atomically updated
 	ex                 *Explorer              // symbolic exploration state (per worker)
 	ptrSeq             map[*value]int         // first-use-as-map-key order of pointers (deterministic iteration)
+	jsonHeap           []jsonEntry            // modelled json.Marshal results
 }
 
 type deferred struct {
@@ -230,14 +231,26 @@ func visitInstr(fr *frame, instr ssa.Instruction) continuation {
 
 	case *ssa.Slice:
 		lo, hi, mx := fr.get(instr.Low), fr.get(instr.High), fr.get(instr.Max)
-		if sv, ok := hi.(symv); ok {
-			hi = sv.ex.concretize(sv)
-		}
-		if sv, ok := lo.(symv); ok {
-			lo = sv.ex.concretize(sv)
-		}
-		if sv, ok := mx.(symv); ok {
-			mx = sv.ex.concretize(sv)
+		if isSym(hi) || isSym(lo) || isSym(mx) {
+			// all out-of-range values of a symbolic bound form one (panicking) path
+			capX := int64(0)
+			switch x := fr.get(instr.X).(type) {
+			case string:
+				capX = int64(len(x))
+			case []value:
+				capX = int64(cap(x))
+			case *value:
+				capX = int64(cap((*x).(array)))
+			}
+			if sv, ok := hi.(symv); ok {
+				hi = sv.ex.concretizeIn(sv, 0, capX)
+			}
+			if sv, ok := lo.(symv); ok {
+				lo = sv.ex.concretizeIn(sv, 0, capX)
+			}
+			if sv, ok := mx.(symv); ok {
+				mx = sv.ex.concretizeIn(sv, 0, capX)
+			}
 		}
 		fr.env[instr] = slice(fr.get(instr.X), lo, hi, mx)
 
@@ -370,7 +383,14 @@ func visitInstr(fr *frame, instr ssa.Instruction) continuation {
 
 	case *ssa.IndexAddr: // idxconc
 		if sv, ok := fr.get(instr.Index).(symv); ok {
-			fr.env[instr.Index] = sv.ex.concretize(sv)
+			n := int64(0)
+			switch x := fr.get(instr.X).(type) {
+			case []value:
+				n = int64(len(x))
+			case *value:
+				n = int64(len((*x).(array)))
+			}
+			fr.env[instr.Index] = sv.ex.concretizeIn(sv, 0, n-1)
 		}
 		x := fr.get(instr.X)
 		idx := fr.get(instr.Index)
